@@ -110,14 +110,15 @@ func short(s string) string {
 // ---- multipart model (one partition per upload id)
 
 type mpuIn struct {
-	Kind string // part | complete | abort
+	Kind string // part | complete | abort | lsparts
 	N    int
 	V    string   // part: md5
 	List []string // complete: "n:etag"
 }
 
 type mpuOut struct {
-	OK bool
+	OK    bool
+	Parts string // lsparts: what the listing showed, encoded like mpuState.parts
 }
 
 type mpuState struct {
@@ -173,6 +174,11 @@ var mpuModel = porcupine.Model{
 				return !out.OK, st
 			}
 			return out.OK, mpuState{gone: true}
+		case "lsparts":
+			if st.gone {
+				return !out.OK, st
+			}
+			return out.OK && out.Parts == st.parts, st
 		default: // complete
 			if st.gone {
 				return !out.OK, st
@@ -198,7 +204,7 @@ var mpuModel = porcupine.Model{
 	Equal: func(a, b interface{}) bool { return a.(mpuState) == b.(mpuState) },
 	DescribeOperation: func(input, output interface{}) string {
 		in := input.(mpuIn)
-		return fmt.Sprintf("%s n=%d v=%s list=%v -> ok=%v", in.Kind, in.N, short(in.V), in.List, output.(mpuOut).OK)
+		return fmt.Sprintf("%s n=%d v=%s list=%v -> ok=%v %s", in.Kind, in.N, short(in.V), in.List, output.(mpuOut).OK, output.(mpuOut).Parts)
 	},
 }
 
@@ -530,7 +536,7 @@ func (r *Run) execLin(ci, oi int, op *Op) {
 		} else if resp.Status != 404 {
 			r.linFail("lin.mpu", "upload-part answers neither success nor NoSuchUpload", "200 or 404", resp.String()+" "+resp.Msg)
 		}
-		h.add("u:"+u.ID, ci, call, ret, mpuIn{Kind: "part", N: op.Part, V: sum}, mpuOut{resp.OK()}, fmt.Sprintf("part %d %s ok=%v", op.Part, short(sum), resp.OK()))
+		h.add("u:"+u.ID, ci, call, ret, mpuIn{Kind: "part", N: op.Part, V: sum}, mpuOut{OK: resp.OK()}, fmt.Sprintf("part %d %s ok=%v", op.Part, short(sum), resp.OK()))
 		r.logf("c%d#%d part up=%s n=%d %s [%d,%d] -> %s", ci, oi, u.ID, op.Part, short(sum), call, ret, resp.String())
 	case "mpu-complete":
 		u := r.upload(op.Up)
@@ -567,13 +573,58 @@ func (r *Run) execLin(ci, oi int, op *Op) {
 		if resp.Status >= 500 {
 			r.linFail("lin.mpu", "complete answers a server error", "200 or 4xx", resp.String()+" "+resp.Msg)
 		}
-		h.add("u:"+u.ID, ci, call, ret, mpuIn{Kind: "complete", List: list}, mpuOut{resp.OK()}, fmt.Sprintf("complete %v ok=%v", list, resp.OK()))
+		h.add("u:"+u.ID, ci, call, ret, mpuIn{Kind: "complete", List: list}, mpuOut{OK: resp.OK()}, fmt.Sprintf("complete %v ok=%v", list, resp.OK()))
 		if resp.OK() {
 			h.add("k:"+u.Bucket+"/"+u.Key, ci, call, ret, regIn{Kind: "w", V: sum, ID: fmt.Sprintf("mpu%d", call)}, regOut{}, "complete-write "+short(sum))
 			r.probe("complete succeeded in a concurrent run")
 			r.stats.Mutations++
 		}
 		r.logf("c%d#%d complete up=%s %v [%d,%d] -> %s", ci, oi, u.ID, list, call, ret, resp.String())
+	case "mpu-abort":
+		u := r.upload(op.Up)
+		if u == nil {
+			return
+		}
+		call := h.tick()
+		resp := r.send(&simnet.Request{Method: "DELETE", Target: target(u.Bucket, u.Key, url.Values{"uploadId": {u.ID}})}, op.Faults, r.frag(op))
+		ret := h.tick()
+		r.noPanic(resp, "abort multipart upload")
+		if !resp.OK() && resp.Status != 404 {
+			r.linFail("lin.mpu", "abort answers neither success nor NoSuchUpload", "204 or 404", resp.String()+" "+resp.Msg)
+		}
+		h.add("u:"+u.ID, ci, call, ret, mpuIn{Kind: "abort"}, mpuOut{OK: resp.OK()}, fmt.Sprintf("abort ok=%v", resp.OK()))
+		if resp.OK() {
+			r.probe("abort succeeded in a concurrent run")
+		}
+		r.logf("c%d#%d abort up=%s [%d,%d] -> %s", ci, oi, u.ID, call, ret, resp.String())
+	case "mpu-lsparts":
+		u := r.upload(op.Up)
+		if u == nil {
+			return
+		}
+		call := h.tick()
+		resp := r.send(&simnet.Request{Method: "GET", Target: target(u.Bucket, u.Key, url.Values{"uploadId": {u.ID}})}, op.Faults, r.frag(op))
+		ret := h.tick()
+		r.noPanic(resp, "list parts")
+		out := mpuOut{OK: resp.Status == 200}
+		if resp.Status == 200 {
+			var x xPartsResult
+			if err := xml.Unmarshal(resp.Body, &x); err != nil {
+				r.linFail("lin.mpu", "ListParts answers a body that does not parse", "ListPartsResult", trunc(string(resp.Body), 200))
+			}
+			m := map[int]string{}
+			for _, p := range x.Parts {
+				m[p.PartNumber] = strings.Trim(p.ETag, `"`)
+			}
+			out.Parts = mpuEncode(m)
+			if x.IsTruncated {
+				out.Parts += ",truncated"
+			}
+		} else if resp.Status != 404 {
+			r.linFail("lin.mpu", "ListParts answers neither success nor NoSuchUpload", "200 or 404", resp.String()+" "+resp.Msg)
+		}
+		h.add("u:"+u.ID, ci, call, ret, mpuIn{Kind: "lsparts"}, out, fmt.Sprintf("lsparts ok=%v %s", out.OK, out.Parts))
+		r.logf("c%d#%d lsparts up=%s [%d,%d] -> %s %s", ci, oi, u.ID, call, ret, resp.String(), out.Parts)
 	default:
 		panic("lin op " + op.K)
 	}
